@@ -96,9 +96,10 @@ func (session *PullSession) Start(rawUrl string) error {
 			var err error
 			select {
 			case err = <-session.cmdSession.WaitChan():
-				if err != nil {
-					_ = session.baseInSession.Dispose()
-				}
+				// the command session also ends on its own with a nil error here (its read loop returned:
+				// ClientCommandSession.dispose closes the connection with Close()), not only through Dispose of
+				// this session: the other half has to go in every case, or WaitChan of this session never fires
+				_ = session.baseInSession.Dispose()
 				if cmdSessionDisposed {
 					Log.Errorf("[%s] cmd session disposed already.", session.UniqueKey())
 				}
